@@ -146,7 +146,7 @@ package router
 //@   oncall go: nGo = nGo + 1
 //@   modifies obj(r.prefetch.queue)
 //@   ensures [C19:reserve-first] nRes == 1
-//@   callsite go: [C07,C20:goroutine-gets-private-question] !captures(q)
+//@   callsite go: [C07,C10,C20:goroutine-gets-private-question] !captures(q)
 //@   ensures [C19:spawn-only-if-reserved] (nGo == 1) == okRes && nGo <= 1
 // What is stored is the full uncompressed encoding of the response (then s2-compressed, assumed lossless); what is
 // served is the decoding of exactly the stored bytes. That cached data never holds an OPT record is an invariant of
@@ -325,7 +325,7 @@ package router
 //@   ensures wfMsg(m)
 //@   ensures err == nil ==> b != nil && fresh(b) && rootObj(b) && len(b) >= 14
 //@   ensures err != nil ==> b == nil
-//@   ensures [C13:frame-prefix] err == nil && old(optSmall(m)) ==> len(b) - 2 <= 65535 && BE16(b, 0) == uint16(len(b) - 2)
+//@   ensures [C03,C13:frame-prefix] err == nil && old(optSmall(m)) ==> len(b) - 2 <= 65535 && BE16(b, 0) == uint16(len(b) - 2)
 //@   callsite Pack: [C09:stream-limit-is-65535] arg3 == 65535 && arg2 == compression
 
 //@ func mustHaveRespB(query *dnsmsg.Msg, resp *dnsmsg.Msg, errRcode dnsmsg.RCode, tcp bool, size int) (b pool.Buffer)
@@ -390,7 +390,7 @@ package router
 //@   oncall Write: nW = nW + 1
 //@   modifies *
 //@   ensures [C03:exactly-one-write] nW == 1
-//@   callsite Write: [C13:one-framed-write] len(arg1) >= 14 && len(arg1) - 2 <= 65535 && BE16(arg1, 0) == uint16(len(arg1) - 2)
+//@   callsite Write: [C03,C13:one-framed-write] len(arg1) >= 14 && len(arg1) - 2 <= 65535 && BE16(arg1, 0) == uint16(len(arg1) - 2)
 
 // the refresh goroutine: releases its private question and the reservation exactly once, on every path
 //@ closure router.asyncSingleFlightPrefetch$1
@@ -433,10 +433,18 @@ package router
 //@             && (len(cfg.Domain) > 0 ? ru.matcher == r.domainSets[cfg.Domain] && ru.reverse == cfg.Reverse : ru.matcher == nil && !ru.reverse)
 //@             && (len(cfg.Forward) > 0 ? ru.upstream == r.upstreams[cfg.Forward] : ru.upstream == nil)
 
+// loadCA: the pool holds the certificates of the configured file and nothing else (it starts empty, never from the
+// system store), so "chains to the configured CA" means exactly that.
 //@ func loadCA(f string) (p *x509.CertPool, err error)
-//@   trusted
+//@   props C17
+//@   ghost nNew int = 0
+//@   ghost gp *x509.CertPool = nil
+//@   oncall NewCertPool?: nNew = nNew + 1
+//@   aftercall NewCertPool?: gp = ret0
 //@   modifies nothing
 //@   ensures (err == nil) == (p != nil)
+//@   ensures [C17:only-the-configured-ca] err == nil ==> nNew == 1 && p == gp
+//@   callsite AppendCertsFromPEM?: [C17:only-the-configured-ca] arg0 == gp && nNew == 1
 
 // makeTlsConfig: peer verification stays on unless explicitly disabled; a configured CA becomes the root pool;
 // a listener configured to verify client certificates requires and verifies one against that CA (system roots
@@ -591,7 +599,7 @@ package router
 //@   oncall AsyncWrite: nAW = nAW + 1
 //@   modifies *
 //@   ensures [C03:exactly-one-write] nAW == 1
-//@   callsite AsyncWrite: [C13:one-framed-write] len(arg1) >= 14 && len(arg1) - 2 <= 65535 && BE16(arg1, 0) == uint16(len(arg1) - 2)
+//@   callsite AsyncWrite: [C03,C13:one-framed-write] len(arg1) >= 14 && len(arg1) - 2 <= 65535 && BE16(arg1, 0) == uint16(len(arg1) - 2)
 
 // ---- server_http_gohttp.go -------------------------------------------------------------------------------
 //@ func (r *router) listen(cfg *ServerConfig) (l net.Listener, err error)
